@@ -54,6 +54,8 @@ MUTS = {
    [(ML, "        return {\"Y\": Tensor(np.float32, t.shape)}\n\n    op_type = OpType(\"Scaler\"", "        return {\"Y\": Tensor(t.dtype, t.shape)}\n\n    op_type = OpType(\"Scaler\"")],
  "Compress supplement forgets the vector shape again (fix 2f0b661 reverted)":
    [(V17, "        if inp.shape is None and self.attrs.axis is not None:\n", "        if not inp.shape:\n")],
+ "Tensor._to_onnx: a zero-size dimension is sent as unknown (`d or None`)":
+   [(T, "            dtype_to_tensor_type(self._elem_type), self.shape\n        )\n", "            dtype_to_tensor_type(self._elem_type), None if self.shape is None else tuple(d or None for d in self.shape)\n        )\n")],
  "element types: bfloat16 read back from ONNX as float16":
    [(U, "    return onnx.helper.tensor_dtype_to_np_dtype(ttype)\n", "    if ttype == onnx.TensorProto.BFLOAT16:\n        return np.dtype(np.float16)\n    return onnx.helper.tensor_dtype_to_np_dtype(ttype)\n")],
  "element types: a complex128 operand is declared complex64":
